@@ -247,6 +247,44 @@ def run_type(res, T, spec_, rng, sentinels):
         L1, L2 = workload.load(raw), workload.load(raw)
         alias_scan(res, L1.module, L2.module, f"{T}:same-bytes", desc)
         differential(res, L1, L2, "same-bytes", T, rng, spec_["edits"], desc)
+        # --- files that spell out what this library leaves implicit: a Sampler envelope stored with ZERO points, a MultiSynth whose
+        #     note-pitch table is stored although it holds the stock tuning.  Two loads of such bytes are two objects, and a
+        #     module constructed later starts from the stock values
+        special = None
+        if T == "Sampler":
+            s0 = cls()
+            for env_ in (s0.volume_envelope, s0.panning_envelope, s0.pitch_envelope):
+                env_.points = []
+            special = api.Synth(s0).read()
+        elif T == "MultiSynth":
+            ms0 = cls()
+            chunks_ = [(c_[0], c_[1]) for c_ in iffparse.parse(api.Synth(ms0).read())]
+            if not any(c_[0] == b"CHNM" and c_[1] == (3).to_bytes(4, "little") for c_ in chunks_):
+                at = max(k_ for k_, c_ in enumerate(chunks_) if c_[0] in (b"CHDT", b"CHFF", b"CHFR")) + 1
+                chunks_[at:at] = [(b"CHNM", (3).to_bytes(4, "little")), (b"CHDT", bytes(ms0.np_curve.bytes))]
+            special = iffparse.build(chunks_)
+        if special is not None and rnd == 0:
+            try:
+                X1, X2 = workload.load(special), workload.load(special)
+                fresh_before = _snapshot_and_bytes(api.Synth(cls()))
+                res.count("explicit_default_files")
+                alias_scan(res, X1.module, X2.module, f"{T}:explicit-defaults", desc)
+                before_x2 = _snapshot_and_bytes(X2)
+                if T == "Sampler":
+                    X1.module.volume_envelope.points.append((5, 77))
+                    X1.module.pitch_envelope.points.extend([(1, 2), (3, 4)])
+                else:
+                    X1.module.np_curve.values[60] = 12345
+                    X1.module.np_curve.values[0] = 1
+                if _snapshot_and_bytes(X2) != before_x2:
+                    res.violation(f"C17:leak:{T}:explicit-defaults:second-load", f"{T} file that spells out defaults, loaded twice: editing the first load's lists in place changed the second", desc)
+                elif _snapshot_and_bytes(api.Synth(cls())) != fresh_before:
+                    res.violation(f"C17:leak:{T}:explicit-defaults:fresh-instance", f"{T} file that spells out defaults: editing the loaded lists in place changed what a NEW {T} starts with", desc)
+                elif _snapshot_and_bytes(workload.load(special))[0] != before_x2[0]:
+                    res.violation(f"C17:leak:{T}:explicit-defaults:third-load", f"{T}: the same bytes load differently after an earlier load's lists were edited in place", desc)
+            except Exception as e:
+                res.count("explicit_default_files_unusable")
+                res.hist("explicit_default_files_unusable_why", f"{T}:{type(e).__name__}")
         # --- generated vs fresh instance of the same type (class-level defaults)
         A3 = make_module(seed, idx + 900, tier, T)
         B3 = cls()
